@@ -58,6 +58,7 @@ ASSUME = ['TLC results are exhaustive only within the stated constants (1 blob, 
           'files under tmp/ that no object owns any more are counted, not judged (DESIGN notes on C13)',
           'BlobStorage over an undo-capable storage (BlobStorage.undo, _packUndoing) is outside the two flavours the '
           'property quantifies over',
+          'fsync is switched off in the replays (durability is not part of C13)',
           'transaction, persistent, zodbpickle, zope.interface trusted as installed']
 
 
@@ -74,7 +75,8 @@ def job_mc(a):
     name, c, next_, inv, props, workers, timeout, scratch = a
     wd = os.path.join(scratch, 'mc-' + name)
     os.makedirs(wd, exist_ok=True)
-    r = tlc.run(SPEC, _cfg(wd, name, c, next_, inv, props, view='View'), workdir=wd, workers=workers, timeout=timeout)
+    r = tlc.run(SPEC, _cfg(wd, name, c, next_, inv, props, view='View'), workdir=wd, workers=workers, timeout=timeout,
+                env=bs.JVM_ENV)
     return {'kind': 'mc', 'name': name, 'summary': r.summary(), 'violation': r.violation, 'trace': r.trace,
             'tail': r.output[-1500:] if not r.ok else ''}
 
@@ -91,7 +93,7 @@ def job_sim(a):
     wd = os.path.join(scratch, 'sim-' + name)
     os.makedirs(os.path.join(wd, 'out'), exist_ok=True)
     r = tlc.run(SPEC, _cfg(wd, name, c, next_), workdir=wd, simulate='file=%s/out/tr,num=%d' % (wd, num), depth=depth,
-                seed=seed, workers=1, timeout=900)
+                seed=seed, workers=1, timeout=900, env=bs.JVM_ENV)
     if not r.ok:
         raise tlc.TLCError('simulation %s: %s\n%s' % (name, r.violation, r.output[-2000:]))
     files = sorted(glob.glob(os.path.join(wd, 'out', 'tr_*')))
@@ -119,7 +121,11 @@ def job_scr(a):
 
 
 def _job(a):
-    return {'mc': job_mc, 'sim': job_sim, 'scr': job_scr}[a[0]](a[1])
+    import time
+    t0 = time.time()
+    r = {'mc': job_mc, 'sim': job_sim, 'scr': job_scr}[a[0]](a[1])
+    r['job_wall_s'] = round(time.time() - t0, 1)
+    return r
 
 
 # ------------------------------------------------------------------------------------------------------------
@@ -158,7 +164,9 @@ def directed(flavour):
                             s += bs.other(2, 'a')
                         s += bs.commit(end)
                         # afterwards: the next transaction, an abort after the vote (which empties a stale dirty list), a pack
-                        s += bs.rewrite(2, 'a') + bs.commit('vote' if end == 'store' else 'finish') + bs.pack(0)
+                        s += bs.rewrite(2, 'a') + bs.commit('vote' if end == 'store' else 'finish')
+                        if len(S) % 4 == 0:
+                            s += bs.pack(0)
                         S.append(s)
     # savepoints: rollbacks to every savepoint, twice, new blobs created and un-created, then every end
     for end in ENDS:
@@ -208,7 +216,7 @@ def random_script(rng, flavour, nblob):
             return bs.consume(b, rng.choice(X))
         return bs.modify_p(rng.choice(('v1', 'v2')))
     s += bs.create(rng.choice((('a',), ('b',)))) + bs.commit()
-    for _ in range(rng.randint(3, 6)):
+    for _ in range(rng.randint(2, 4)):
         for _ in range(rng.randint(1, 3)):
             s += edit()
         if rng.random() < 0.35:
@@ -328,6 +336,7 @@ def cex_steps(trace):
 
 def run(ctx):
     clock.install()
+    bd.no_fsync()
     q = ctx.quick
     sc = ctx.scratch
     seed = ctx.seed
@@ -375,8 +384,10 @@ def run(ctx):
     jobs = []
     for fl in FLAVOURS:
         rc = dict(REPAIRED, **small)
-        jobs.append(('mc', ('design-%s-txn' % fl, bd.consts(fl, MaxTid=4, MaxSp=1, **rc), 'NextTxn', DESIGN_INV, DESIGN_PROPS, 3, 1500, sc)))
-        jobs.append(('mc', ('design-%s-sp2' % fl, bd.consts(fl, MaxTid=3, MaxSp=2, **rc), 'NextTxn', DESIGN_INV, DESIGN_PROPS, 2, 1500, sc)))
+        if fl == 'mixin' or not q:
+            # (with the deviation constants cleared the two flavours differ in Pack and Undo only, which NextTxn lacks)
+            jobs.append(('mc', ('design-%s-txn' % fl, bd.consts(fl, MaxTid=4, MaxSp=1, **rc), 'NextTxn', DESIGN_INV, DESIGN_PROPS, 3, 1500, sc)))
+            jobs.append(('mc', ('design-%s-sp2' % fl, bd.consts(fl, MaxTid=3, MaxSp=2, **rc), 'NextTxn', DESIGN_INV, DESIGN_PROPS, 2, 1500, sc)))
         jobs.append(('mc', ('design-%s-hist' % fl, bd.consts(fl, MaxTid=4 if q else 5, MaxSp=1, KeepOld=(fl == 'mixin'), **rc), 'NextHist',
                             DESIGN_INV, DESIGN_PROPS, 3, 3000, sc)))
         if not q:
@@ -384,8 +395,8 @@ def run(ctx):
                                 DESIGN_INV, DESIGN_PROPS, 3, 3000, sc)))
             jobs.append(('mc', ('design-%s-txn2' % fl, bd.consts(fl, MaxTid=4, MaxSp=2, **dict(rc, Atoms=('a', 'b'))), 'NextTxn',
                                 DESIGN_INV[:-1], DESIGN_PROPS, 3, 3000, sc)))
-    nsim = 40 if q else 700
-    nrand = 150 if q else 3000
+    nsim = 24 if q else 700
+    nrand = 120 if q else 3000
     for fl in FLAVOURS:
         for keep in ((False, True) if fl == 'mixin' else (False,)):
             c = bd.consts(fl, NBlob=3, MaxTid=10, MaxSp=2, KeepOld=keep, **as_code[fl])
@@ -396,7 +407,7 @@ def run(ctx):
                 if keep and rel not in ('NextPack', 'NextUndo'):
                     continue
                 for part in range(1 if q else 4):
-                    jobs.append(('sim', ('%s-%s-%d' % (tag, rel, part), c, rel, max(4, n // (1 if q else 4)), 60,
+                    jobs.append(('sim', ('%s-%s-%d' % (tag, rel, part), c, rel, max(4, n // (1 if q else 4)), 45 if q else 60,
                                          seed * 1009 + 31 * part + len(rel) + (7 if keep else 0), sc, seed + part)))
             c4 = dict(c, NBlob=4, MaxTid=14)
             d = directed(fl)
@@ -406,7 +417,7 @@ def run(ctx):
             rs = [random_script(rng, fl, 4) for _ in range(nrand // (2 if keep else 1))]
             allscr = [('dir', d), ('rnd', rs)]
             for kind, scripts in allscr:
-                nchunk = max(1, len(scripts) // (40 if q else 120))
+                nchunk = max(1, round(len(scripts) / (75 if q else 150)))
                 for k in range(nchunk):
                     part = scripts[k::nchunk]
                     if part:
@@ -415,6 +426,10 @@ def run(ctx):
     jobs.sort(key=lambda j: (j[0] != 'mc', 'NextPack' not in j[1][0]))
     results = par.pmap(_job, jobs)
     design = {}
+    if os.environ.get('ZV_C13_TIMING'):
+        for (kind, a), out in zip(jobs, results):
+            print('job %-4s %-34s %6.1fs  tlc %6.1fs  behaviours %s' % (kind, a[0], out['job_wall_s'], out['summary']['wall_s'],
+                                                                    len(out.get('results', ()))))
     for (kind, a), out in zip(jobs, results):
         if kind == 'mc':
             ctx.add_tlc(out['name'], _R(out['summary']))
@@ -472,6 +487,7 @@ def _new_cov():
 def replay(ctx, data):
     """./check C13 --replay FILE: TLC re-evaluates the recorded calls (ZBlobScript), the code replays them."""
     clock.install()
+    bd.no_fsync()
     rp = data['replay']
     c = rp['consts']
     c['Atoms'] = tuple(c['Atoms'])
